@@ -7,8 +7,8 @@ Import ListNotations.
 Require Import PonyV.Model.C36Base PonyV.Gen.C36Pool PonyV.Model.C36Fork PonyV.Proofs.C36Proofs.
 #[local] Open Scope Z_scope.
 
-(* For EVERY history of the parent (sessions, queries, dropped connections, disconnect()) and EVERY sequence of session operations
-   of the child: if at the moment of the fork the parent's session does not hold a connection (no session / session begun but no
+(* For EVERY history of the parent (sessions, queries, failing connects, dropped connections, disconnect()) and EVERY sequence of
+   session operations of the child (including statements whose connect attempt fails): if at the moment of the fork the parent's session does not hold a connection (no session / session begun but no
    statement yet / connection back in the pool / never connected / disconnected), then every connection object the child creates,
    uses or closes was created by the child, and no pool assertion fails.  This is the exact complement of the known finding. *)
 Theorem C36_child_except_known : forall p q parent_ops child_ops,
@@ -39,24 +39,43 @@ Theorem C36_child_first_statement : forall p q parent_ops c,
 Proof. exact child_first_query_creates. Qed.
 Print Assumptions C36_child_first_statement.
 
-(* Pool.connect as translated from the source: what it hands out belongs to the caller *)
-Theorem C36_pool_connect : forall q pc pp fk fresh pc' pp' fk' isnew,
+(* Pool.connect as translated from the source, with an oracle for pool._connect() raising.  Both ways it can end: returned
+   normally - what it hands out belongs to the caller; raised - the pool holds no connection afterwards *)
+Theorem C36_pool_connect : forall ok q pc pp fk fresh pc' pp' fk' isnew ok',
   (forall c, pc = Some c -> pp = Some (creator c)) ->
   creator fresh = q ->
-  pool_connect q pc pp fk fresh = (pc', pp', fk', isnew) ->
-  exists c, pc' = Some c /\ creator c = q /\ pp' = Some q
-            /\ (isnew = true -> c = fresh) /\ (isnew = false -> pc = Some c /\ fk' = fk).
-Proof. exact pool_connect_own. Qed.
+  pool_connect ok q pc pp fk fresh = (pc', pp', fk', isnew, ok') ->
+  (ok' = true /\ exists c, pc' = Some c /\ creator c = q /\ pp' = Some q
+                          /\ (isnew = true -> c = fresh) /\ (isnew = false -> pc = Some c /\ fk' = fk))
+  \/ (ok' = false /\ ok = false /\ pc' = None).
+Proof. exact pool_connect_cases. Qed.
 Print Assumptions C36_pool_connect.
 
-Theorem C36_pool_connect_same_process : forall q c fk fresh,
-  pool_connect q (Some c) (Some q) fk fresh = (Some c, Some q, fk, false).
+(* after a failed connect the pool never holds a connection - in particular not one created by another process *)
+Theorem C36_failed_connect_leaves_pool_empty : forall ok q pc pp fk fresh pc' pp' fk' isnew,
+  pool_connect ok q pc pp fk fresh = (pc', pp', fk', isnew, false) -> pc' = None.
+Proof. exact pool_connect_failed. Qed.
+Print Assumptions C36_failed_connect_leaves_pool_empty.
+
+(* fork with a pooled connection, the child's first connect attempt fails, the child tries again: its own connection *)
+Theorem C36_child_failed_first_connect : forall p q parent_ops c,
+  p <> q ->
+  let par := run (init p) parent_ops in
+  ccon par = None -> pcon par = Some c ->
+  let ch := run (fork par q) [OBegin; OQueryFail] in
+  pcon ch = None /\ ccon ch = None /\ log ch = [] /\ forked ch = forked par ++ [(c, Some p)]
+  /\ log (run ch [OQuery]) = [ECreate q (q, serial par + 1); EUse q (q, serial par + 1)].
+Proof. exact child_failed_first_connect. Qed.
+Print Assumptions C36_child_failed_first_connect.
+
+Theorem C36_pool_connect_same_process : forall ok q c fk fresh,
+  pool_connect ok q (Some c) (Some q) fk fresh = (Some c, Some q, fk, false, true).
 Proof. exact pool_connect_same_process. Qed.
 Print Assumptions C36_pool_connect_same_process.
 
 (* SQLitePool.__init__ does not set pool.pid: it is not read before the first connect sets it *)
 Theorem C36_sqlite_pid_unset_not_read : forall q fk fresh pp,
-  pool_connect q None pp fk fresh = (Some fresh, Some q, fk, true).
+  pool_connect true q None pp fk fresh = (Some fresh, Some q, fk, true, true).
 Proof. exact pool_connect_unset_pid_not_read. Qed.
 Print Assumptions C36_sqlite_pid_unset_not_read.
 
